@@ -270,8 +270,11 @@ class TypedNode(Node):
         if isinstance(child, self._tree.__class__):
             if deep is None:
                 deep = True
-            topnodes = child._root.children
-            if isinstance(before, (int, TypedNode)) or before is True:
+            # Work on a copy: never modify the child list of the source tree
+            topnodes = list(child._root.children)
+            if isinstance(before, int) and before is not False:
+                # True or index: all nodes are inserted at the same position,
+                # so iterate backwards to maintain the order
                 topnodes.reverse()
             for n in topnodes:
                 self.add_child(n, before=before, deep=deep)
